@@ -43,9 +43,11 @@ type Opts struct {
 	Unsafe        bool
 	EagerMerge    bool // merge plan scaled down so that 2-3 one-document segments merge
 	MergeFloor1   bool // with EagerMerge: floor segment size 1, so that of three one-document segments two are merged and one stays
+	NoFileMerge   bool // the merge planner never finds work (unbounded budget)
 	NoMemMerge    bool // never merge in memory
 	Retain        int  // snapshots kept by the deletion policy (default 1)
 	NapMS         int
+	NapUnderFiles int // PersisterNapUnderNumFiles (0: keep the default of 1000)
 	SegVersion    int // 0/1: ice v1, 2: ice v2
 	AsyncError    func(error)
 	EventCallback func(index.Event)
@@ -62,6 +64,9 @@ func Config(dir index.Directory, o Opts) bluge.Config {
 	}
 	ic.UnsafeBatch = o.Unsafe
 	ic.PersisterNapTimeMSec = o.NapMS
+	if o.NapUnderFiles > 0 {
+		ic.PersisterNapUnderNumFiles = o.NapUnderFiles
+	}
 	if o.Retain > 0 {
 		n := o.Retain
 		ic.DeletionPolicyFunc = func() index.DeletionPolicy { return index.NewKeepNLatestDeletionPolicy(n) }
@@ -78,6 +83,9 @@ func Config(dir index.Directory, o Opts) bluge.Config {
 	}
 	if o.EagerMerge && o.MergeFloor1 {
 		ic.MergePlanOptions.FloorSegmentSize = 1
+	}
+	if o.NoFileMerge {
+		ic.MergePlanOptions.CalcBudget = func(int64, int64, *mergeplan.Options) int { return 1 << 30 }
 	}
 	if o.NoMemMerge {
 		ic.MinSegmentsForInMemoryMerge = 1 << 30
